@@ -1,4 +1,4 @@
-// hook for train/set_speed_train_sim.rs (child module: `use super::*;` reaches the file's private items)
+// hook for train/set_speed_train_sim.rs
 #[cfg(nrel_altrios_verif)]
 mod native {
     #[allow(unused_imports)]
@@ -6,9 +6,21 @@ mod native {
     use crate::verif_hook::runner::*;
     use serde_json::{json, Value};
 
+    fn call(o: &mut SetSpeedTrainSim, fname: &str, a: &[Value]) -> CallRes {
+        match fname {
+            "SetSpeedTrainSim::solve_required_pwr" => unit(o.solve_required_pwr(f(&a[0]) * uc::S)),
+            "SetSpeedTrainSim::solve_step" => unit(o.solve_step()),
+            "SetSpeedTrainSim::step" => unit(o.step()),
+            _ => Err(Unsup(format!("no runner entry for {fname}"))),
+        }
+    }
+
     impl FileEntry for SetSpeedTrainSimTag {
-        fn call(_req: &Value) -> Value {
-            json!({"kind": "unsupported", "msg": "no entries yet"})
+        fn call(req: &Value) -> Value {
+            match req["recv_ty"].as_str().unwrap_or("") {
+                "SetSpeedTrainSim" => run::<SetSpeedTrainSim>(req, call),
+                t => json!({"kind": "unsupported", "msg": format!("no runner for {t}")}),
+            }
         }
     }
 }
